@@ -87,7 +87,7 @@ class Check:
                    uni=None):
         prog = prog or self.program()
         uni = uni or engine.Universe()
-        uni.timeout_ms = 20000 if self.tier == 'quick' else 120000
+        uni.timeout_ms = 30000 if self.tier == 'quick' else 120000
         ex = engine.Engine(prog, uni, models_std.MODELS, summarise=summarise)
         self.uni_stats.append(uni)
         return ex
@@ -108,6 +108,11 @@ class Check:
             s.add(f)
         t = time.time()
         r = s.check()
+        if r == z3.unknown:
+            # a loaded machine can make a query miss its time cap: retry once with a much larger cap
+            s.set('timeout', (timeout_ms or uni.timeout_ms) * 6)
+            r = s.check()
+            self.extra['solver_retries'] = self.extra.get('solver_retries', 0) + 1
         self.solver_time += time.time() - t
         self.queries += 1
         if r == z3.unsat:
